@@ -3,6 +3,7 @@ import Martian.Props.C10.Stages
 import Martian.Props.C10.Locks
 import Martian.Props.C10.Facts
 import Martian.Props.C10.MidBlock
+import Martian.Props.C10.Sequences
 /-!
 # C10 — an HTTP/2 relay session terminates and releases both connections whichever side ends
 
